@@ -349,6 +349,31 @@ def _define_probe(ExactSolver):
     ProbeSolver.__module__ = "verif.probe"
     CENSUS["verif.probe.ProbeSolver"] = ProbeSolver
 
+    class ProbeValues(ExactSolver):
+        """Harness probe solver whose fields carry the values the CSV clause has to survive: signed zero, subnormal
+        and huge magnitudes, non-finite values, integers, complex numbers, strings (incl. separators and quotes) and
+        None -- everything some ExactPack solver returns today or could return.  Exercises ExactSolution.dump only."""
+        parameters = {"k": "rotation of the value table"}
+        k = 0
+        FLOATS = [-0.0, 0.0, 5e-324, -5e-324, 2.2250738585072014e-308, 1.7976931348623157e308, -1.7976931348623157e308,
+                  float("nan"), float("inf"), float("-inf"), 0.1 + 0.2, 1.0 / 3.0, 2.0 / 3.0, 1e-7, 123456789.12345679,
+                  1e16, 1e22, 1e23, 9007199254740993.0, 0.30000000000000004, 4.35, 1e-5, 5e-5]
+        STRINGS = ["I", "0H", "a,b", 'q"uote', " lead", "", "line\nbreak", "III"]
+
+        def _run(self, r, t):
+            import numpy as _np
+            n = len(r)
+            k = int(self.k)
+            f = _np.array([self.FLOATS[(i + k) % len(self.FLOATS)] for i in range(n)])
+            ints = _np.array([(-1) ** i * (2 ** (i % 62)) for i in range(n)], dtype=_np.int64)
+            z = _np.array([complex(self.FLOATS[(i + k) % len(self.FLOATS)], -0.0 if i % 2 else 1.5) for i in range(n)])
+            s = _np.array([self.STRINGS[(i + k) % len(self.STRINGS)] for i in range(n)])
+            o = _np.array([None if i % 3 == 0 else self.STRINGS[(i + k) % len(self.STRINGS)] for i in range(n)], dtype=object)
+            return ExactSolution([r, f, ints, z, s, o, f * t],
+                                 names=["position", "value", "count", "amplitude", "region", "tag", "value scaled"], jumps=[])
+    ProbeValues.__module__ = "verif.probe"
+    CENSUS["verif.probe.ProbeValues"] = ProbeValues
+
 
 load.import_failures = []
 SEAM_STATS = {"functions": 0, "module_aliases": 0, "np_aliases": 0}
